@@ -50,12 +50,12 @@ class C14(Spec):
             k = int(p[1:])
             if not (0 <= k < max(n, 0)):
                 return ("probe-out-of-range", "predicate evaluated at invalid index %d (count %d)" % (k, n))
-        nl = sum(1 for p in probes if p[0] == "l")
-        ne = sum(1 for p in probes if p[0] == "e")
-        if n > 0 and nl > ceil_lg(n + 1):
-            return ("too-many-probes", "%d less-probes > ceil(lg(%d+1)) = %d" % (nl, n, ceil_lg(n + 1)))
-        if ne > 1:
-            return ("too-many-probes", "%d equal-probes" % ne)
+        # "only O(log n) times": the theorem gives <= ceil(lg(n+1)) less-probes + 1 equal-probe for the current code;
+        # the oracle judges the PROPERTY, so it allows a constant factor (a harmless variant with a different
+        # constant is then reported by the correspondence as no-failing-input-found, not as a failing input)
+        if len(probes) > 4 * ceil_lg(max(n, 0) + 1) + 8:
+            return ("too-many-probes", "%d predicate evaluations for count %d (allowed 4*ceil(lg(n+1))+8 = %d)" % (
+                len(probes), n, 4 * ceil_lg(max(n, 0) + 1) + 8))
         if consistent:
             if n <= 0:
                 exp = -1
